@@ -171,6 +171,30 @@ def case_strategy():
                            max_size=8)})
 
 
+@st.composite
+def perblock_case(draw):
+    """long chains with (at most) one fault on the first exchange of every
+    block step: each one is absorbed by the recovery rules on its own"""
+    fsci = draw(st.sampled_from([0, 0, 1, 2, 2, 3, 4]))
+    m = FSC[fsci] - 3
+    cfg = {"tech": draw(st.sampled_from(["A", "B"])), "fsci": fsci,
+           "fwi": draw(st.sampled_from([0, 4, 8, 9, 10, 11])),
+           "chunk": draw(st.one_of(st.none(), st.sampled_from([5, 13, 29]),
+                                   st.integers(3, 60))),
+           "wtx": 0, "max_send": 290, "max_recv": 290, "shape": None}
+    apdus = []
+    for _ in range(draw(st.sampled_from([1, 1, 2, 3]))):
+        kc = draw(st.one_of(st.integers(1, 4), st.integers(5, 14)))
+        kr = draw(st.one_of(st.integers(0, 3), st.integers(4, 12)))
+        apdus.append([max(4, kc * m + draw(st.integers(-2, 1))),
+                      max(0, kr * m + draw(st.integers(-2, 1)))])
+    dense = draw(st.booleans())
+    kinds = [None, "LC", "LR", "CR"] if not dense else ["LC", "LR", "CR",
+                                                         "LC", None]
+    plan = draw(st.lists(st.sampled_from(kinds), min_size=4, max_size=60))
+    return {"cfg": cfg, "apdus": apdus, "script": [], "plan": plan}
+
+
 def run(case, ctx):
     cfg = case["cfg"]
     app = isodep_card.T4App()
@@ -214,6 +238,8 @@ def converse(case, ctx, app, tag_sim, tag, dev, fwi, fault_of):
     for slot, kind in case["script"]:
         script.setdefault(base + 1 + slot, fault_of(kind))
     dev.script = script
+    if case.get("plan"):
+        install_step_faults(dev, case["plan"], fault_of)
     n_retry = budget_of(fwi)
     ctx.label("%s budget=%d" % (type(tag).__name__, n_retry))
     outcomes = []
@@ -259,15 +285,18 @@ def converse(case, ctx, app, tag_sim, tag, dev, fwi, fault_of):
             # exchange made for one block; a fault costs at most two extra
             # exchanges (R(NAK) + retransmission), so floor((budget+1)/2)
             # faults per APDU are always within its own policy
-            mine_faults = [x for x in dev.xlog[x0:]
-                           if isinstance(x[2], str)]
+            # ... per block: the library counts afresh for every block of a
+            # chain (command blocks and R(ACK) requests for the next part of
+            # a chained response alike)
+            per_step = step_faults(dev.xlog[x0:])
             h = _classify(ctx, dev, base, script, after_error, since=x0)
-            if not after_error and len(mine_faults) <= (n_retry + 1) // 2:
+            if not after_error and max(per_step or [0]) <= (n_retry + 1) // 2:
                 raise Violation(
                     "recoverable-fault-not-absorbed",
-                    "apdu %d: %d fault(s) at exchanges %r, retry budget %d, "
-                    "raised %r" % (idx, len(mine_faults), h["slots"], n_retry,
-                                   err))
+                    "apdu %d: fault(s) at exchanges %r, at most %d on the "
+                    "exchanges for one block (%r), retry budget %d, raised %r"
+                    % (idx, h["slots"], max(per_step or [0]), per_step,
+                       n_retry, err))
             outcomes.append("error:%d" % err.errno)
     _frame_size(ctx, tag_sim, len(case["apdus"]))
     hit = _classify(ctx, dev, base, script, False)
@@ -282,6 +311,47 @@ def converse(case, ctx, app, tag_sim, tag, dev, fwi, fault_of):
     ctx.label("errors" if any(o != "ok" for o in outcomes) else "all-ok")
     ctx.note({"outcomes": outcomes, "exchanges": dev.exchanges - base,
               "faults_hit": hit["slots"]})
+
+
+def _starts_step(blk, last):
+    """a PCD block that opens the exchanges for a new block of the chain: an
+    I-block or an R(ACK) other than the one these exchanges began with (a
+    retransmission is octet for octet the same block)"""
+    return bool(blk) and (blk[0] & 0xC0 == 0x00 or blk[0] & 0xF6 == 0xA2) \
+        and blk != last
+
+
+def step_faults(xlog):
+    """faults per block step of one transceive(): [count, ...]"""
+    out, last = [], None
+    for idx, cmd, rsp, phase in xlog:
+        if _starts_step(cmd, last):
+            last = cmd
+            out.append(0)
+        elif not out:
+            out.append(0)
+        if isinstance(rsp, str) and rsp.startswith("ERR:"):
+            out[-1] += 1
+    return out
+
+
+def install_step_faults(dev, plan, fault_of):
+    """fault plan by block step instead of by exchange number: plan[k] is the
+    fault (or None) for the first exchange of the k-th block step counted
+    over the whole case"""
+    inner = dev.send_cmd_recv_rsp
+    state = {"last": None, "step": -1}
+
+    def wrapped(target, data, timeout):
+        blk = b"" if data is None else bytes(data)
+        if _starts_step(blk, state["last"]):
+            state["last"] = blk
+            state["step"] += 1
+            k = plan[state["step"]] if state["step"] < len(plan) else None
+            if k:
+                dev.script[dev.exchanges + 1] = fault_of(k)
+        return inner(target, data, timeout)
+    dev.send_cmd_recv_rsp = wrapped
 
 
 def _frame_size(ctx, tag_sim, idx):
@@ -545,6 +615,17 @@ LEGS = [
              "with any subset of TA, TB, TC and 0-15 historical bytes; "
              "SENSB_RES 12/13 byte, protocol type and FO bits, ATTRIB answer "
              "variants) and the card takes FSC/FWI from the bytes it sent."),
+    Leg("perblock", run=run, gen=lambda tier: perblock_case(), quick=1200,
+        thorough=30000, shards_quick=4, shards_thorough=16, nt_floor=0.3,
+        rule="chains of up to 14 command blocks and 12 response parts (FSCI "
+             "0-4, 1-3 APDUs) with a fault plan by block step: the first "
+             "exchange of the k-th block step (an I-block or an R(ACK) other "
+             "than its predecessor) gets no fault or one of {LC, LR, CR}, "
+             "dense or sparse.  Every such fault is absorbed on its own by "
+             "the recovery rules, so with a retry budget >= 1 the APDU must "
+             "succeed however many blocks were hit (transparency is judged "
+             "per block step in all legs); non-trivial = faults hit a chain "
+             "or R-block."),
     Leg("shapes", run=run, enum=enum_shapes, exhaustive=True,
         shards_quick=8, shards_thorough=16,
         rule="every activation response shape (Type 4A ATS: TL only, TL+T0, "
